@@ -57,3 +57,10 @@ Theorem C01_export_of_canonical_note : forall n, note_ok n -> canonical_order n 
   kern_tokenize all_cats (note_token n) = Ok (str (print_note n)).
 Proof. exact kern_export_canonical. Qed.
 Print Assumptions C01_export_of_canonical_note.
+
+(* obligation regenerated from the source on every run: the code this property runs through keeps exactly the state the
+   model knows (no new attribute, class-level table, module-level binding or caching decorator), see proofs/State*Proofs.v *)
+From KV Require Import StateGen StateBase StateImportProofs StateTokensProofs StateExportProofs.
+Theorem C01_state_as_modelled : state_import = modelled_state_import /\ state_tokens = modelled_state_tokens /\ state_export = modelled_state_export.
+Proof. exact (conj state_import_as_modelled (conj state_tokens_as_modelled state_export_as_modelled)). Qed.
+Print Assumptions C01_state_as_modelled.
